@@ -53,15 +53,17 @@ static uint64_t g_a_sl;
 static const int64_t* g_b_base;
 static int64_t* g_res_base;
 
+#ifdef __CPROVER__
 /* contract stub for reim_from_znx64 (C14: exact for |x| < 2^50): which operand and which limb is identified by the pointer */
 static void stub_from_znx64(const REIM_FROM_ZNX64_PRECOMP* p, void* r, const int64_t* x) {
   double* out = (double*)r;
   const uint64_t nn = (uint64_t)p->m << 1;
-  if (g_b_base && x >= g_b_base && x < g_b_base + D1(NB_WORDS)) {
-    uint64_t off = (uint64_t)(x - g_b_base);
+  if (__CPROVER_POINTER_OBJECT(x) == __CPROVER_POINTER_OBJECT(g_b_base)) { /* x points into the b / matrix operand */
+    uint64_t off = (uint64_t)(__CPROVER_POINTER_OFFSET(x) - __CPROVER_POINTER_OFFSET(g_b_base)) / 8;
     for (uint64_t i = 0; i < nn; ++i) out[i] = VF_B[off + i];
   } else {
-    uint64_t off = (uint64_t)(x - g_a_base);
+    VF_ASSERT(__CPROVER_POINTER_OBJECT(x) == __CPROVER_POINTER_OBJECT(g_a_base), "from_znx64 reads one of the two operands");
+    uint64_t off = (uint64_t)(__CPROVER_POINTER_OFFSET(x) - __CPROVER_POINTER_OFFSET(g_a_base)) / 8;
     uint64_t limb = off / g_a_sl;
     VF_ASSERT(off % g_a_sl == 0 && limb < D1(NA_LIMBS), "from_znx64 called on a limb of the vector operand");
     for (uint64_t i = 0; i < nn; ++i) out[i] = VF_A[limb * NN + i];
@@ -71,13 +73,25 @@ static void stub_from_znx64(const REIM_FROM_ZNX64_PRECOMP* p, void* r, const int
 static void stub_to_znx64(const REIM_TO_ZNX64_PRECOMP* p, int64_t* r, const void* x) {
   const double* v = (const double*)x;
   const uint64_t nn = (uint64_t)p->m << 1;
-  uint64_t off = (uint64_t)(r - g_res_base);
+  VF_ASSERT(__CPROVER_POINTER_OBJECT(r) == __CPROVER_POINTER_OBJECT(g_res_base), "to_znx64 writes into the result");
+  uint64_t off = (uint64_t)(__CPROVER_POINTER_OFFSET(r) - __CPROVER_POINTER_OFFSET(g_res_base)) / 8;
   VF_ASSERT(off % NN == 0 && off / NN < D1(NOUT_LIMBS), "to_znx64 writes a limb of the result");
   VF_DIV = p->divisor;
   for (uint64_t i = 0; i < nn; ++i) {
     VF_OUT[off + i] = v[i];
     r[i] = 0x5a5a5a5a; /* marker: a converted limb */
   }
+}
+#endif
+
+/* buffers that carry doubles are allocated as double arrays (a uint64-typed object written through double* makes the symbolic
+ * executor route every value through bit reinterpretation); contents are left uninitialised = nondeterministic */
+static void* dbuf(uint64_t nbytes) {
+  double* p = (double*)malloc((nbytes / 8) * sizeof(double));
+#ifdef __CPROVER__
+  __CPROVER_assume(p != 0);
+#endif
+  return p;
 }
 
 void h_prod(void) {
@@ -108,31 +122,31 @@ void h_prod(void) {
   g_res_base = res;
 
 #if PATH == 0
-  uint8_t* tmp = (uint8_t*)vf_alloc_words(znx_small_single_product_tmp_bytes(mod) / 8);
+  uint8_t* tmp = (uint8_t*)dbuf(znx_small_single_product_tmp_bytes(mod));
   znx_small_single_product(mod, res, a, b, tmp);
 #elif PATH == 1
-  uint64_t* pp = vf_alloc_words(bytes_of_svp_ppol(mod) / 8);
-  uint64_t* dft = vf_alloc_words(bytes_of_vec_znx_dft(mod, RSZ) / 8);
+  uint64_t* pp = (uint64_t*)dbuf(bytes_of_svp_ppol(mod));
+  uint64_t* dft = (uint64_t*)dbuf(bytes_of_vec_znx_dft(mod, RSZ));
   svp_prepare(mod, (SVP_PPOL*)pp, b);
   svp_apply_dft(mod, (VEC_ZNX_DFT*)dft, RSZ, (SVP_PPOL*)pp, a, ASZ, ASL);
 #ifdef TMPA
   vec_znx_idft_tmp_a(mod, (VEC_ZNX_BIG*)res, RSZ, (VEC_ZNX_DFT*)dft, RSZ);
 #else
-  uint8_t* tmp = (uint8_t*)vf_alloc_words(vec_znx_idft_tmp_bytes(mod) / 8);
+  uint8_t* tmp = (uint8_t*)dbuf(vec_znx_idft_tmp_bytes(mod));
   vec_znx_idft(mod, (VEC_ZNX_BIG*)res, RSZ, (VEC_ZNX_DFT*)dft, RSZ, tmp);
 #endif
 #else
-  uint64_t* pm = vf_alloc_words(bytes_of_vmp_pmat(mod, NROWS, NCOLS) / 8);
-  uint8_t* tmp0 = (uint8_t*)vf_alloc_words(vmp_prepare_contiguous_tmp_bytes(mod, NROWS, NCOLS) / 8);
+  uint64_t* pm = (uint64_t*)dbuf(bytes_of_vmp_pmat(mod, NROWS, NCOLS));
+  uint8_t* tmp0 = (uint8_t*)dbuf(vmp_prepare_contiguous_tmp_bytes(mod, NROWS, NCOLS));
   vmp_prepare_contiguous(mod, (VMP_PMAT*)pm, b, NROWS, NCOLS, tmp0);
-  uint64_t* dft = vf_alloc_words(bytes_of_vec_znx_dft(mod, RSZ) / 8);
+  uint64_t* dft = (uint64_t*)dbuf(bytes_of_vec_znx_dft(mod, RSZ));
 #if PATH == 2
-  uint8_t* tmp = (uint8_t*)vf_alloc_words(vmp_apply_dft_tmp_bytes(mod, RSZ, ASZ, NROWS, NCOLS) / 8);
+  uint8_t* tmp = (uint8_t*)dbuf(vmp_apply_dft_tmp_bytes(mod, RSZ, ASZ, NROWS, NCOLS));
   vmp_apply_dft(mod, (VEC_ZNX_DFT*)dft, RSZ, a, ASZ, ASL, (VMP_PMAT*)pm, NROWS, NCOLS, tmp);
 #else
-  uint64_t* adft = vf_alloc_words(bytes_of_vec_znx_dft(mod, ASZ) / 8);
+  uint64_t* adft = (uint64_t*)dbuf(bytes_of_vec_znx_dft(mod, ASZ));
   vec_znx_dft(mod, (VEC_ZNX_DFT*)adft, ASZ, a, ASZ, ASL);
-  uint8_t* tmp = (uint8_t*)vf_alloc_words(vmp_apply_dft_to_dft_tmp_bytes(mod, RSZ, ASZ, NROWS, NCOLS) / 8);
+  uint8_t* tmp = (uint8_t*)dbuf(vmp_apply_dft_to_dft_tmp_bytes(mod, RSZ, ASZ, NROWS, NCOLS));
   vmp_apply_dft_to_dft(mod, (VEC_ZNX_DFT*)dft, RSZ, (VEC_ZNX_DFT*)adft, ASZ, (VMP_PMAT*)pm, NROWS, NCOLS, tmp);
 #endif
   vec_znx_idft_tmp_a(mod, (VEC_ZNX_BIG*)res, RSZ, (VEC_ZNX_DFT*)dft, RSZ);
